@@ -465,7 +465,12 @@ def main(pid):
         "histories": "<= 3 (quick) / 4 (thorough) steps, enumerated",
         "outside_claim": ["types/shapes/values outside the catalogue", "non-contiguous source ndarrays (storage model S9 represents flatten+tobytes)", "GPU buffers"],
     }
+    if tr == "quick":
+        rep.bounds["quick_tier"] = "scenarios with many allocations (reference-bearing types; copies; histories) assume a first free chunk of >= 16 KiB + 64 bytes ('roomy'); running out of space is explored by the growth placements (capacity 0; N=0 with a symbolic grow step for types without references)"
+    if pjobs:
+        rep.bounds["mode_P"] = "SOLVER: dynamic dimensions, index tuples, child sizes of struct fields, sizes of dynamic array items, string character/byte counts and capacities, stored reference words, slot/target offsets -- all values < 2^62; ENUMERATED: axis count <= 3, dynamic masks, axis orders, struct patterns <= 4 (quick) / 5 (thorough) fields, shapes of arrays of abstract dynamic items (<= 2x3x2)"
     rep.assumptions = [
+        "mode P stubs: S3 (a text is a str with symbolic character count C and UTF-8 length L, C <= L <= 4C; bytes()/len() inside xobjects.string and xobjects.array accept it), S4 (np.prod/np.array/np.empty inside xobjects.array on lists holding proxies), abstract children report a symbolic size (static >= 1, dynamic >= 8) and record where they are written",
         "S1: Int64 codec stores/loads symbolic words atomically on symbolic buffers; S2: is_integer accepts proxies",
         "S9: storage primitives of the symbolic buffer are the write-log model; validated each run against the real BufferNumpy/BufferByteArray by running the same scenarios concretely (concrete_validation_runs)",
         "A1: capacities < 2^62; A2: type names unique inside a catalogue entry",
